@@ -26,8 +26,8 @@ P = {
  "C08": ("4 C08", "proptest programs with recording / failing user functions; oracle: reference interpreter triple (result, final context, ordered call log)",
          "Random effectful programs (assignments in operand positions, recording and failing functions, unknown names, k/0 with distinct k, eager if, no short-circuit) over varied contexts; result (exact names, messages and failing operands), final variables and call log with arguments must equal the reference.",
          "User functions deterministic; their only effect is the harness-owned log."),
- "C09": ("4 C09", "complete configuration matrix enumeration; oracle: reference resolution rule with recording functions",
-         "54 names x 130 context configurations (switch, user function recording or itself failing with FunctionIdentifierNotFound, variable, clone / clone_from / clear_functions / clear / toggled twice / clearing while another copy is alive, both empty contexts) x 56 call and variable forms = 393,120 evaluations, all enumerated; callee, argument shape and error must match.",
+ "C09": ("4 C09", "complete configuration matrix enumeration + proptest over random programs whose names live in both namespaces; oracle: reference resolution rule / reference interpreter with recording functions",
+         "54 names x 130 context configurations (switch, user function recording or itself failing with FunctionIdentifierNotFound, variable, clone / clone_from / clear_functions / clear / toggled twice / clearing while another copy is alive, both empty contexts) x 56 call and variable forms = 393,120 evaluations, all enumerated; callee, argument shape and error must match. Then random programs (nested and juxtaposed calls, assignments to variables named like functions, tuples, chains) over 10 shared names in random HashMapContexts (300 k quick / 6 M thorough), compared on result, call log and final variables.",
          "Builtin results are those of the C10 reference."),
  "C10": ("4 C10", "complete builtin x argument-shape matrix + per-family proptest; oracle: per-builtin reference functions (bit-exact / error / validity predicate for min,max) and len/substring laws",
          "49 builtins x 23,500 argument shapes (arity 0..3) in both build profiles, random arguments near function-specific boundaries, and (string, a, b) triples for the len/substring consistency laws.",
